@@ -535,7 +535,7 @@ impl Array6 {
         // Read 2 bytes as u16 (little-endian)
         let two_bytes = vx_u16_from_le_bytes([self.bytes[byte_idx], self.bytes[byte_idx + 1]]);
         proof {
-            let a = self.bytes@[byte_idx as int]; let b = self.bytes@[byte_idx as int + 1];
+            let a = self.bytes@[(slot * 6 / 8) as int]; let b = self.bytes@[(slot * 6 / 8) as int + 1];
             assert([a, b]@ =~= seq![a, b]);
             assert(shift < 8 ==> ((two_bytes >> shift) & 0x3f) == ((two_bytes >> (shift as u16)) & 0x3f) && ((two_bytes >> shift) & 0x3f) <= 63) by (bit_vector);
             assert((two_bytes >> shift) & 0x3f == 0x3f & (two_bytes >> shift)) by (bit_vector);
